@@ -750,7 +750,13 @@ class OpGen:
         key = rng.choice(["score", "note"])
         vals = [round(rng.random(), 3) if key == "score" else rng.choice(["p", "q", ""])
                 for _ in sel]
-        return {"op": "ctrl", "what": what, "nodes": sel, "attrs": {key: vals}}
+        attrs = {key: vals}
+        if self.bad(0.25):
+            # a managed key (or time) among the attributes: the primitive behind the
+            # controller must refuse it as well
+            prot = [tracks.features.time_key] + list(tracks.annotators.all_features.keys())
+            attrs[rng.choice(prot)] = [rng.randint(0, 5) for _ in sel]
+        return {"op": "ctrl", "what": what, "nodes": sel, "attrs": attrs}
 
     def gen_prim_seg(self, tracks):
         """Primitive UpdateNodeSeg on a random node: remove part / ALL of its mask or add
